@@ -10,6 +10,7 @@ import (
 	"fmt"
 	"io"
 	"log"
+	"reflect"
 	"sort"
 	"strings"
 	"sync"
@@ -137,6 +138,7 @@ type client struct {
 	sid     wamp.ID
 	stalled bool
 	via     bool // attached through a real transport
+	inproc  bool // in-process for the router too (Peer.IsLocal): must get private copies of what it is sent
 	closed  bool // receive channel seen closed
 	dropped bool // the client closed its side
 }
@@ -150,7 +152,11 @@ type world struct {
 	start     time.Time
 	histCfgs  map[string][]*router.TopicEventHistoryConfig
 	lastSizes map[string]map[string]int
-	lastRoles string         // roles of the WELCOME of the join just performed (canonical JSON)
+	lastRoles string // roles of the WELCOME of the join just performed (canonical JSON)
+	// EVENTs handed to in-process clients: their details and payload containers must be private
+	// copies (C12). The events are kept so that an address cannot be reused within a history.
+	seenPtr   map[uintptr]string
+	keepAlive []*wamp.Event
 	pubs      []wamp.ID      // publication ids of the PUBLISHED messages seen so far ({"$pub": j})
 	quit      chan struct{}  // closed at shutdown: releases helper goroutines
 	helpers   sync.WaitGroup // helper goroutines started by the harness inside the bubble
@@ -429,7 +435,7 @@ func (w *world) join(op map[string]any) string {
 			return "expected WELCOME, got " + m.MessageType().String()
 		}
 		via, _ := op["via"].(string)
-		cl := &client{key: key, peer: c, sid: wel.ID, via: via != "" && !local}
+		cl := &client{key: key, peer: c, sid: wel.ID, via: via != "" && !local, inproc: local}
 		w.clients[key] = cl
 		w.sidKey[wel.ID] = key
 		if b, err := json.Marshal(wamp.NormalizeDict(wel.Details)["roles"]); err == nil {
@@ -549,6 +555,17 @@ func (w *world) apply(op map[string]any) (out map[int][]wamp.Message, closed []i
 	}
 	sort.Ints(keys)
 	for _, k := range keys {
+		if c := w.clients[k]; c != nil && c.inproc && note == "" {
+			for _, m := range out[k] {
+				if ev, ok := m.(*wamp.Event); ok {
+					if a := w.aliased(k, ev); a != "" {
+						note = a
+					}
+				}
+			}
+		}
+	}
+	for _, k := range keys {
 		for _, m := range out[k] {
 			if p, ok := m.(*wamp.Published); ok {
 				w.pubs = append(w.pubs, p.Publication)
@@ -602,4 +619,41 @@ func (w *world) shutdown() (err error) {
 	close(w.quit)
 	w.helpers.Wait()
 	return nil
+}
+
+// aliased records the containers of an EVENT delivered to an in-process client and reports a
+// container that an earlier EVENT (of another recipient, or an earlier one of this recipient)
+// already used: in-process recipients may modify what they get, so each gets its own copies.
+func (w *world) aliased(k int, ev *wamp.Event) string {
+	if w.seenPtr == nil {
+		w.seenPtr = map[uintptr]string{}
+	}
+	w.keepAlive = append(w.keepAlive, ev)
+	check := func(what string, p uintptr) string {
+		if p == 0 {
+			return ""
+		}
+		me := fmt.Sprintf("%s of an EVENT for in-process session %d", what, k)
+		if other, ok := w.seenPtr[p]; ok {
+			return "aliased: the " + me + " is the same object as the " + other
+		}
+		w.seenPtr[p] = me
+		return ""
+	}
+	if ev.Details != nil {
+		if a := check("details", reflect.ValueOf(ev.Details).Pointer()); a != "" {
+			return a
+		}
+	}
+	if len(ev.Arguments) > 0 {
+		if a := check("arguments", reflect.ValueOf(ev.Arguments).Pointer()); a != "" {
+			return a
+		}
+	}
+	if len(ev.ArgumentsKw) > 0 {
+		if a := check("keyword arguments", reflect.ValueOf(ev.ArgumentsKw).Pointer()); a != "" {
+			return a
+		}
+	}
+	return ""
 }
